@@ -32,6 +32,35 @@ class Unsupported(AnalysisError):
     pass
 
 
+class PureModule:
+    """`import operator`: the module's pure functions on plain values (a model object as an operand is refused - its
+    dunder methods would not be consulted)."""
+
+    SAFE = {"operator": ("eq", "ne", "lt", "le", "gt", "ge", "add", "sub", "mul", "floordiv", "mod", "neg", "pos", "not_", "and_", "or_", "xor", "is_", "is_not", "truth", "index", "contains", "getitem")}
+
+    def __init__(self, name: str):
+        self.name = name
+
+    def get(self, attr: str, ev: Any = None, node: Any = None) -> Any:
+        import importlib
+
+        if attr not in self.SAFE.get(self.name, ()):
+            if ev is not None:
+                raise ev.bad(node, f"{self.name}.{attr} is not modelled")
+            raise Unsupported(f"{self.name}.{attr} is not modelled")
+        f = getattr(importlib.import_module(self.name), attr)
+
+        def call(*args: Any) -> Any:
+            if any(isinstance(a, Obj) for a in args):
+                raise Unsupported(f"{self.name}.{attr} applied to a model object")
+            try:
+                return f(*args)
+            except (TypeError, ValueError, ZeroDivisionError, IndexError, KeyError) as err:
+                raise ModelRaise(type(err).__name__) from err
+
+        return call
+
+
 class Obj:
     """A model object: a kind (for isinstance) and attributes."""
 
@@ -296,6 +325,8 @@ class Ev:
                 if n.attr == "__name__":
                     return cname
                 raise self.bad(n, "attribute of a class that is not a class-level assignment")
+            if isinstance(base, PureModule):
+                return base.get(n.attr, self, n)
             raise self.bad(n, "attribute of a non-model value")
         if isinstance(n, ast.Subscript):
             base = self.ev(n.value)
@@ -492,6 +523,38 @@ class Ev:
             bound = [self.ev(a) for a in n.args[1:]]
             bkw = {k.arg: self.ev(k.value) for k in n.keywords if k.arg}
             return lambda *a, **kw: target(*bound, *a, **{**bkw, **kw})
+        if isinstance(f, ast.Name) and f.id in ("any", "all", "next") and f.id not in self.env and n.args and isinstance(n.args[0], ast.GeneratorExp) and not n.keywords:
+            # a generator expression is consumed lazily: any() / all() stop at the first deciding element, next() takes
+            # one - the elements after it are never evaluated (they may have effects: `any(self._try(r) for r in rules)`)
+            g = n.args[0]
+            if len(g.generators) != 1:
+                raise self.bad(n, "nested comprehension")
+            gen = g.generators[0]
+            own = {x.id for x in ast.walk(gen.target) if isinstance(x, ast.Name)}
+            saved = {k: self.env.get(k, _MISSING) for k in own}
+            try:
+                for item in self.iterate(self.ev(gen.iter)):
+                    self.assign(gen.target, item)
+                    if not all(self.ev(i) for i in gen.ifs):
+                        continue
+                    v = self.ev(g.elt)
+                    if f.id == "next":
+                        return v
+                    if f.id == "any" and self.truth(v):
+                        return True
+                    if f.id == "all" and not self.truth(v):
+                        return False
+                if f.id == "next":
+                    if len(n.args) > 1:
+                        return self.ev(n.args[1])
+                    raise _ModelRaise("StopIteration")
+                return f.id == "all"
+            finally:
+                for k, v0 in saved.items():
+                    if v0 is _MISSING:
+                        self.env.pop(k, None)
+                    else:
+                        self.env[k] = v0
         callee_is_model = (isinstance(f, ast.Name) and f.id in self.env and callable(self.env[f.id])) or isinstance(f, ast.Attribute)
         if n.keywords and not callee_is_model and not all(k.arg in ("key", "reverse", "default", "start", "strict") for k in n.keywords):
             raise self.bad(n, "keyword arguments")
